@@ -1,0 +1,268 @@
+//go:build verif
+
+package sniproxy
+
+import (
+	"bytes"
+	"fmt"
+	"io"
+	"time"
+)
+
+// This file is only built with the "verif" tag. It exposes internal entry
+// points of the wire codec to an external verification harness; it adds no
+// behaviour to the package.
+
+// VerifField is one field of a wire message in a neutral form.
+type VerifField struct {
+	K    string // u64 | int | bytes | err
+	U    uint64 // u64 value
+	I    int64  // int value, or the code of an err
+	B    []byte // bytes / string value, or the message of an err
+	Nil  bool   // err: nil pointer
+	Name string
+}
+
+func verifErrField(name string, e *remoteErr) VerifField {
+	if e == nil {
+		return VerifField{K: "err", Nil: true, Name: name}
+	}
+	return VerifField{
+		K: "err", I: int64(e.code), B: []byte(e.message), Name: name,
+	}
+}
+
+func verifErrOf(f VerifField) *remoteErr {
+	if f.Nil {
+		return nil
+	}
+	return &remoteErr{code: int(f.I), message: string(f.B)}
+}
+
+// VerifMessageNames lists the message struct names known to the shim.
+var VerifMessageNames = []string{
+	"helloRequest", "helloResponse", "dialRequest", "dialResponse",
+	"dialSideRequest", "dialSide2Request", "readRequest", "readResponse",
+	"writeRequest", "writeResponse", "statusRequest", "statusResponse",
+	"closeRequest", "closeResponse",
+}
+
+func verifNewMessage(name string, fs []VerifField, bufCap int) message {
+	get := func(i int) VerifField {
+		if i < len(fs) {
+			return fs[i]
+		}
+		return VerifField{Nil: true}
+	}
+	switch name {
+	case "helloRequest":
+		return &helloRequest{msg: string(get(0).B)}
+	case "helloResponse":
+		return &helloResponse{msg: string(get(0).B)}
+	case "dialRequest":
+		return &dialRequest{}
+	case "dialResponse":
+		return &dialResponse{session: get(0).U, err: verifErrOf(get(1))}
+	case "dialSideRequest":
+		return &dialSideRequest{
+			session: get(0).U, key: get(1).U, token: string(get(2).B),
+		}
+	case "dialSide2Request":
+		return &dialSide2Request{
+			session: get(0).U, key: get(1).U, token: string(get(2).B),
+			tcpAddr: string(get(3).B),
+		}
+	case "readRequest":
+		return &readRequest{session: get(0).U, maxRead: int(get(1).I)}
+	case "readResponse":
+		m := &readResponse{bytes: get(0).B, err: verifErrOf(get(1))}
+		if fs == nil && bufCap > 0 {
+			m.bytes = make([]byte, bufCap)
+		}
+		return m
+	case "writeRequest":
+		m := &writeRequest{session: get(0).U, bytes: get(1).B}
+		if fs == nil && bufCap > 0 {
+			m.bytes = make([]byte, bufCap)
+		}
+		return m
+	case "writeResponse":
+		return &writeResponse{
+			written: int(get(0).I), err: verifErrOf(get(1)),
+		}
+	case "statusRequest":
+		return &statusRequest{session: get(0).U}
+	case "statusResponse":
+		return &statusResponse{
+			uptime: get(0).U, totalRead: get(1).U, totalWritten: get(2).U,
+		}
+	case "closeRequest":
+		return &closeRequest{session: get(0).U}
+	case "closeResponse":
+		return &closeResponse{err: verifErrOf(get(0))}
+	}
+	return nil
+}
+
+func verifFieldsOf(m interface{}) (string, []VerifField) {
+	u := func(n string, v uint64) VerifField {
+		return VerifField{K: "u64", U: v, Name: n}
+	}
+	i := func(n string, v int) VerifField {
+		return VerifField{K: "int", I: int64(v), Name: n}
+	}
+	b := func(n string, v []byte) VerifField {
+		return VerifField{K: "bytes", B: v, Name: n}
+	}
+	switch m := m.(type) {
+	case *helloRequest:
+		return "helloRequest", []VerifField{b("msg", []byte(m.msg))}
+	case *helloResponse:
+		return "helloResponse", []VerifField{b("msg", []byte(m.msg))}
+	case *dialRequest:
+		return "dialRequest", []VerifField{}
+	case *dialResponse:
+		return "dialResponse", []VerifField{
+			u("session", m.session), verifErrField("err", m.err),
+		}
+	case *dialSideRequest:
+		return "dialSideRequest", []VerifField{
+			u("session", m.session), u("key", m.key),
+			b("token", []byte(m.token)),
+		}
+	case *dialSide2Request:
+		return "dialSide2Request", []VerifField{
+			u("session", m.session), u("key", m.key),
+			b("token", []byte(m.token)), b("tcpAddr", []byte(m.tcpAddr)),
+		}
+	case *readRequest:
+		return "readRequest", []VerifField{
+			u("session", m.session), i("maxRead", m.maxRead),
+		}
+	case *readResponse:
+		return "readResponse", []VerifField{
+			b("bytes", m.bytes), verifErrField("err", m.err),
+		}
+	case *writeRequest:
+		return "writeRequest", []VerifField{
+			u("session", m.session), b("bytes", m.bytes),
+		}
+	case *writeResponse:
+		return "writeResponse", []VerifField{
+			i("written", m.written), verifErrField("err", m.err),
+		}
+	case *statusRequest:
+		return "statusRequest", []VerifField{u("session", m.session)}
+	case *statusResponse:
+		return "statusResponse", []VerifField{
+			u("uptime", m.uptime), u("totalRead", m.totalRead),
+			u("totalWritten", m.totalWritten),
+		}
+	case *closeRequest:
+		return "closeRequest", []VerifField{u("session", m.session)}
+	case *closeResponse:
+		return "closeResponse", []VerifField{verifErrField("err", m.err)}
+	}
+	return "", nil
+}
+
+// VerifErrKind maps a decoder error to a small enum.
+func VerifErrKind(err error) string {
+	switch {
+	case err == nil:
+		return "ok"
+	case err == io.ErrUnexpectedEOF:
+		return "eof"
+	case err == errLengthOverflow:
+		return "toolong"
+	}
+	if _, ok := err.(*tailError); ok {
+		return "tail"
+	}
+	return "other:" + err.Error()
+}
+
+// VerifEncodeMsg encodes a message body.
+func VerifEncodeMsg(name string, fs []VerifField) ([]byte, error) {
+	m := verifNewMessage(name, fs, 0)
+	if m == nil {
+		return nil, fmt.Errorf("unknown message %q", name)
+	}
+	buf := new(bytes.Buffer)
+	enc := newEncoder(buf)
+	m.encodeTo(enc)
+	return buf.Bytes(), enc.Err()
+}
+
+// VerifDecodeMsg decodes a message body, as the client side does for a reply
+// (no tail check) when end is false, and with the tail check when end is true.
+func VerifDecodeMsg(name string, data []byte, bufCap int, end bool) (
+	fs []VerifField, count int64, errKind string,
+) {
+	m := verifNewMessage(name, nil, bufCap)
+	if m == nil {
+		return nil, 0, "other:unknown message"
+	}
+	dec := newDecoder(bytes.NewReader(data))
+	m.decodeFrom(dec)
+	if end {
+		dec.end()
+	}
+	_, fs = verifFieldsOf(m)
+	return fs, dec.count(), VerifErrKind(dec.Err())
+}
+
+// VerifStartCall runs the server-side frame entry point.
+func VerifStartCall(data []byte) (
+	id uint64, typ uint8, name string, fs []VerifField, errKind string,
+) {
+	s := &endpointServer{}
+	x, err := s.startCall(bytes.NewReader(data))
+	if err != nil {
+		return 0, 0, "", nil, VerifErrKind(err)
+	}
+	if x.req != nil {
+		name, fs = verifFieldsOf(x.req)
+	}
+	return x.id, x.t, name, fs, "ok"
+}
+
+// VerifEncodeReply encodes a full reply frame as the server does.
+func VerifEncodeReply(
+	id uint64, typ, errcode uint8, name string, fs []VerifField,
+) ([]byte, error) {
+	x := &endpointExchange{id: id, t: typ, errcode: errcode}
+	if name != "" {
+		m := verifNewMessage(name, fs, 0)
+		if m == nil {
+			return nil, fmt.Errorf("unknown message %q", name)
+		}
+		x.resp = m
+	}
+	buf := new(bytes.Buffer)
+	enc := newEncoder(buf)
+	x.encodeTo(enc)
+	return buf.Bytes(), enc.Err()
+}
+
+// VerifHandleRead runs the server-side read handler against a session that
+// has avail bytes ready, with the given read size off the wire.
+func VerifHandleRead(maxRead int64, avail []byte) (n int, errCode int) {
+	s := newEndpointServer(nil, nil, &Options{})
+	c := newConnection(7)
+	defer c.cleanup()
+	if err := s.conns.add(c); err != nil {
+		return 0, -1
+	}
+	go func() {
+		peer := c.forServer()
+		peer.SetWriteDeadline(time.Now().Add(2 * time.Second))
+		peer.Write(avail)
+		peer.Close()
+	}()
+	resp := s.handleRead(&readRequest{session: 7, maxRead: int(maxRead)})
+	if resp.err != nil {
+		return len(resp.bytes), resp.err.code
+	}
+	return len(resp.bytes), 0
+}
